@@ -1,12 +1,14 @@
 #!/bin/sh
-# tools/seedconfirm.sh <worktree> <name> : confirm a seeded change (demo fails with it, passes without, pinned suite still green)
-# and store it under /verif/seeded/<name>/
+# tools/seedconfirm.sh <agent worktree> <name> : confirm a seeded change on top of /repo's current main:
+# demo fails with it, passes without, pinned suite still green; store under /verif/seeded/<name>/
 WT="$1"; NAME="$2"
 OUT=/verif/seeded/$NAME
 mkdir -p "$OUT"
 cd "$WT" || exit 2
 git diff -- csvpath > "$OUT/patch.diff"
 cp seeded/demo.py "$OUT/demo.py"; cp seeded/notes.md "$OUT/notes.md" 2>/dev/null
+# move the worktree onto the current main, keeping the change
+git stash -q && git checkout -q --detach main && git stash pop -q || { echo "cannot rebase change onto main"; exit 2; }
 /venv/bin/python seeded/demo.py > /tmp/seed_$NAME.with.log 2>&1; W=$?
 git stash -q
 /venv/bin/python seeded/demo.py > /tmp/seed_$NAME.without.log 2>&1; WO=$?
@@ -15,7 +17,7 @@ echo "demo with change exit=$W ; without change exit=$WO"
 rm -rf archive cache inputs logs/*.log 2>/dev/null
 /venv/bin/python -m pytest -q -p no:cacheprovider --timeout=900 --continue-on-collection-errors --junitxml=/tmp/seed_$NAME.junit.xml tests > /tmp/seed_$NAME.tests.log 2>&1
 /venv/bin/python - "$NAME" "$W" "$WO" <<'PY'
-import json, sys, xml.etree.ElementTree as ET
+import json, sys, subprocess, xml.etree.ElementTree as ET
 name, w, wo = sys.argv[1], int(sys.argv[2]), int(sys.argv[3])
 base = json.load(open('/root/.vp/BASELINE.json'))
 stable = set(base['stable_pass'])
@@ -25,7 +27,8 @@ for tc in ET.parse(f'/tmp/seed_{name}.junit.xml').getroot().iter('testcase'):
     if ok:
         passed.add(f"{tc.get('classname')}::{tc.get('name')}")
 missing = sorted(stable - passed)
-res = {"demo_exit_with_change": w, "demo_exit_without_change": wo, "pinned_suite_passed": len(stable & passed), "pinned_suite_total": len(stable), "pinned_tests_broken": missing}
+head = subprocess.check_output(['git','-C','/repo','rev-parse','--short','main']).decode().strip()
+res = {"base_commit": head, "demo_exit_with_change": w, "demo_exit_without_change": wo, "pinned_suite_passed": len(stable & passed), "pinned_suite_total": len(stable), "pinned_tests_broken": missing}
 json.dump(res, open(f'/verif/seeded/{name}/confirm.json','w'), indent=1)
 print(name, res)
 PY
